@@ -95,6 +95,18 @@ CHECKS = {
         "ref": "DESIGN.md §3.3, §4 C12",
         "note": "Trusted: the recording operand class (comparisons with a constant on the left are reflected by Python and excluded), CPython's eval/ast as ground truth. Chained comparisons, keyword repetition and unsupported operators are outside the domain. Open findings KF_C12_pow, KF_C12_name_parens.",
     },
+    "C14": {
+        "technique": "TLA+ spec in exact rational arithmetic (Transforms.tla: contracts = Abs; percentile knots, Cox-de Boor recursion, three-term recurrence and the branch table of BSpline._initialize = Impl) model checked with TLC on all small integer inputs; exact values replayed into formulae.transforms at 1e-9; TLC as exact oracle for harness-chosen longer inputs",
+        "text": "TLC proves in exact rationals, for every integer vector of length 3..4 over 0..3 and degree 1..3, that center has mean zero, scale has unit population variance, the poly recurrence gives mutually orthogonal columns orthogonal to the constant; for every non-constant vector of length 4 (quick) / 4..5 (thorough) x 0..2 inner knots x degree 1..3 x intercept that the B-spline basis on percentile knots has the documented number of columns, is non-negative and sums to one (also on later data with remembered knots); and that the branch table of BSpline._initialize equals the documented refusal rules on all 5600 parameter classes. Every case is replayed into the real Center/Scale/Polynomial/BSpline objects (training call, then later data on the same instance; raw=True = powers; explicit knots = df) and compared with the exact values. Longer vectors with ties are decided with the spec as oracle.",
+        "ref": "DESIGN.md §3.10, §4 C14, §8",
+        "note": "NOT decided by this technique: accuracy under large offsets / ill-conditioning, degree > 3, long vectors (TLC has 32-bit integers and no floats). Irrational outputs (scale, orthonormal poly) are compared through their squares and signs. Open finding KF_C14_knot_at_upper_bound.",
+    },
+    "C16": {
+        "technique": "TLA+ judge (Design_Trace build / unseen / rows / refuse clauses over Design.tla's label meaning) applied to recorded helper calls at training and prediction time",
+        "text": "Random worlds, one helper per event: binary/B with explicit and default success level on str and numeric variables (and new frames lacking that level), offset of a column, a call and positive / negative / float constants (training and new frames with changed values), prop/p/proportion with positional, keyword and constant trials (training response; trials of the new frame at prediction), I(e)/{e}; alias pairs (B=binary, p=prop=proportion, standardize=scale, T(x,r)=C(x,Treatment(r)), S(x,o)=C(x,Sum(o))) as row relations; invalid arguments (success level absent in training, successes > trials, fractional successes, offset as response, prop as predictor, offset of a factor) must be refused. TLC evaluates the meaning of each column's label on the recorded frame and compares every cell.",
+        "ref": "DESIGN.md §4 C16",
+        "note": "Trusted: the label assigned to a helper's column by fv/drivers/c16.py (taken from the statement); integer data. No separate model-checking run: the state space is the recorded trace.",
+    },
 }
 
 NOT_YET = "check not built yet (work in progress; see DESIGN.md §9 build order)"
